@@ -164,6 +164,9 @@ func (in *Interp) schedule(from *G) {
 			break
 		}
 	}
+	if next != nil && in.Cfg.SchedFork > 0 {
+		next = in.forkNext(from, next)
+	}
 	if next == nil && from != nil && from.yielding {
 		// a yielding goroutine lets earlier yielders continue first
 		for _, g := range in.gs {
@@ -201,6 +204,11 @@ func (in *Interp) schedule(from *G) {
 		}
 		next = main
 	}
+	in.handoff(from, next)
+}
+
+// handoff gives the baton to next and parks from until it gets it back.
+func (in *Interp) handoff(from, next *G) {
 	in.cur = nil
 	next.wake <- struct{}{}
 	if from == nil || from.done {
@@ -340,6 +348,7 @@ func (in *Interp) waitFired(g *G, why string) {
 }
 
 func (in *Interp) chanRecv(ch *ChanObj, et types.Type) (Value, bool) {
+	in.preemptPoint("chan")
 	if ch == nil {
 		in.block(func() bool { return false }, "recv on nil chan")
 	}
@@ -358,6 +367,7 @@ func (in *Interp) chanRecv(ch *ChanObj, et types.Type) (Value, bool) {
 }
 
 func (in *Interp) chanSend(ch *ChanObj, v Value) {
+	in.preemptPoint("chan")
 	if ch == nil {
 		in.block(func() bool { return false }, "send on nil chan")
 	}
@@ -377,6 +387,7 @@ func (in *Interp) chanSend(ch *ChanObj, v Value) {
 }
 
 func (in *Interp) chanClose(ch *ChanObj) {
+	in.preemptPoint("chan")
 	if ch == nil {
 		panic(in.runtimePanic("close of nil channel"))
 	}
@@ -410,6 +421,7 @@ func (in *Interp) selectOp(fr *Frame, x *ssa.Select) Value {
 		val  Value
 		et   types.Type
 	}
+	in.preemptPoint("select")
 	states := make([]st, len(x.States))
 	var ready []int
 	for i, s := range x.States {
